@@ -128,7 +128,7 @@ requests:
       - type: "var/jsonpath"
         mapping: {"tok": "$.tok", "n": "$.n", "deep": "$.d.e", "flag": "$.ok"}
       - type: "var/header"
-        mapping: {"h": "X-Tok|upper", "opt": "X-Opt"}
+        mapping: {"h": "X-Tok|upper", "opt": "X-Opt", "cut": "X-Tok|substr(0,-4)", "mid": "X-Tok|substr(1,-2)"}
       - type: "assert/response"
         status_code: 200
 `
@@ -179,7 +179,7 @@ requests:
 			if !ok {
 				p = init
 			}
-			uri := fmt.Sprintf("/%s/r%d?prev={{.request.%s.postprocessor.tok}}&h={{.request.%s.postprocessor.h}}", s.Name, j, p, p)
+			uri := fmt.Sprintf("/%s/r%d?prev={{.request.%s.postprocessor.tok}}&h={{.request.%s.postprocessor.h}}&cut={{.request.%s.postprocessor.cut}}&mid={{.request.%s.postprocessor.mid}}", s.Name, j, p, p, p, p)
 			if s.Broken == fmt.Sprintf("r%d", j) {
 				uri += `&x={{slice "abc" 5 6}}`
 			}
@@ -283,6 +283,8 @@ type rec struct {
 	From  string
 	Prev  string
 	H     string
+	Cut   string // the previous token without its last four characters (substr(0,-4)): tokens are 3–6 long
+	Mid   string // substr(1,-2) of it
 	Val   string
 	Small string
 	Var   string
@@ -310,7 +312,7 @@ func (w *world) respond(rq *vkit.ReqRec, rw http.ResponseWriter, r *http.Request
 		return
 	}
 	x := &rec{Seq: len(w.recs), Scn: r.Header.Get("X-Scn"), Row: row, Step: r.Header.Get("X-Step"), From: r.Header.Get("X-From"),
-		Prev: r.URL.Query().Get("prev"), H: r.URL.Query().Get("h"), Val: r.Header.Get("X-Val"), Small: r.Header.Get("X-Small"), Var: r.Header.Get("X-Var"),
+		Prev: r.URL.Query().Get("prev"), H: r.URL.Query().Get("h"), Cut: r.URL.Query().Get("cut"), Mid: r.URL.Query().Get("mid"), Val: r.Header.Get("X-Val"), Small: r.Header.Get("X-Small"), Var: r.Header.Get("X-Var"),
 		Body: string(rq.Body), At: rq.At}
 	x.Tok = fmt.Sprintf("t%dz", x.Seq)
 	key := fmt.Sprintf("%s/%d", x.Scn, x.Row)
@@ -353,6 +355,22 @@ func (w *world) respond(rq *vkit.ReqRec, rw http.ResponseWriter, r *http.Request
 		rw.WriteHeader(200)
 		fmt.Fprintf(rw, `{"tok":%q,"n":%d,"d":{"e":1},"ok":true}`, x.Tok, x.Seq)
 	}
+}
+
+// pySlice: s[a:b] with negative bounds counted from the end and both kept inside the value.
+func pySlice(s string, a, b int) string {
+	l := len(s)
+	if a < 0 {
+		a += l
+	}
+	if b < 0 {
+		b += l
+	}
+	a, b = min(max(a, 0), l), min(max(b, 0), l)
+	if a > b {
+		return ""
+	}
+	return s[a:b]
 }
 
 // ---------------------------------------------------------------- run + judge
@@ -517,6 +535,9 @@ func runCase(res *vkit.Result, c Case, idx int) {
 					if src == nil {
 						res.Violate(key+"/variable-flow", fmt.Sprintf("scenario %s row %d step %s takes its values from %s which did not run before it in this shot", s.Name, r, x.Step, x.From), cs)
 					} else {
+						if wc, wm := pySlice(src.Tok, 0, -4), pySlice(src.Tok, 1, -2); x.Cut != wc || x.Mid != wm {
+							res.Violate(key+"/captured-substr", fmt.Sprintf("scenario %s row %d step %s: the header value %q captured with substr(0,-4) and substr(1,-2) arrived as %q and %q, want %q and %q", s.Name, r, x.Step, src.Tok, x.Cut, x.Mid, wc, wm), cs)
+						}
 						if x.Prev != src.Tok || x.H != strings.ToUpper(src.Tok) {
 							res.Violate(key+"/variable-flow", fmt.Sprintf("scenario %s row %d step %s (position %d): carries prev=%q h=%q, the last response to %s in this shot had token %q", s.Name, r, x.Step, p, x.Prev, x.H, x.From, src.Tok), cs)
 						}
